@@ -27,8 +27,11 @@ Fixpoint drop_ws (s : str) : str :=
 (* the input after the first "*/" ; the whole input is skipped when there is none *)
 Fixpoint after_close (s : str) : str :=
   match s with
-  | 42 :: ((47 :: r) as _) => r
-  | _ :: r => after_close r
+  | c :: r =>
+      match r with
+      | d :: r' => if (c =? 42) && (d =? 47) then r' else after_close r
+      | [] => []
+      end
   | [] => []
   end.
 Fixpoint sk (fuel : nat) (s : str) : str :=
@@ -36,7 +39,7 @@ Fixpoint sk (fuel : nat) (s : str) : str :=
   | O => s
   | S f =>
       match drop_ws s with
-      | 47 :: 42 :: r => sk f (after_close r)
+      | c :: d :: r => if (c =? 47) && (d =? 42) then sk f (after_close r) else c :: d :: r
       | s1 => s1
       end
   end.
@@ -82,7 +85,7 @@ Definition tok_cond (s : str) : option str :=
   | Some r => Some r
   | None =>
       match skip s with
-      | 63 :: 46 :: d :: r => if is_digit d then Some (46 :: d :: r) else None
+      | a :: b :: d :: r => if (a =? 63) && (b =? 46) && is_digit d then Some (b :: d :: r) else None
       | _ => None
       end
   end.
